@@ -47,6 +47,8 @@ enum Mode {
 enum Ev {
     Sec,
     SecIdle,
+    /// one second with a burst of 40 client datagrams (several threshold flushes per link)
+    SecBurst,
     Fault(usize, Mode),
     Repair(usize),
     BindFails(usize),
@@ -123,6 +125,10 @@ impl M {
             // reduced alphabet for long outages followed by a repair (or a flap)
             events = vec![Ev::SecIdle, Ev::Sec, Ev::Fault(1, Mode::BlackHole), Ev::Repair(1), Ev::Fault(1, Mode::Flap)];
         }
+        if level == 5 {
+            // a send failure soon after a rejoin (default symbol Sec: streaming)
+            events = vec![Ev::SecBurst, Ev::SecIdle, Ev::Fault(1, Mode::BlackHole), Ev::Repair(1), Ev::Fault(1, Mode::SendFails)];
+        }
         let name = format!(
             "links={n} timeout={timeout} mode={} alphabet={}{}",
             if classic { "classic" } else { "enhanced" },
@@ -130,6 +136,7 @@ impl M {
             match level {
                 3 => " (back-off horizon)",
                 4 => " (long outage horizon)",
+                5 => " (send failure after rejoin)",
                 _ => "",
             }
         );
@@ -143,7 +150,8 @@ fn client_type(b: &[u8]) -> bool {
 
 impl M {
     /// one second of the closed loop
-    fn second(&self, env: &mut Env, s: &mut St, traffic: bool) -> Result<(), Fail> {
+    fn second(&self, env: &mut Env, s: &mut St, datagrams: usize) -> Result<(), Fail> {
+        let traffic = datagrams > 0;
         let n = self.n;
         s.w.advance(1000);
         let now = s.w.now;
@@ -332,8 +340,8 @@ impl M {
             let down_start: Vec<bool> = (0..n).map(|l| !s.w.connections[l].connected).collect();
             let established = s.w.reg.has_connected;
             let mut seen = vec![Vec::<u32>::new(); n];
-            for _ in 0..5 {
-                s.w.advance(2);
+            for _ in 0..datagrams {
+                s.w.advance(if datagrams > 5 { 1 } else { 2 });
                 let seq = s.next_seq;
                 s.next_seq += 1;
                 let p = srt_data(seq, false, seq, 188);
@@ -479,8 +487,9 @@ impl Model for M {
     }
     fn step(&self, env: &mut Env, s: &mut St, e: usize) -> Result<(), Fail> {
         match self.events[e] {
-            Ev::Sec => self.second(env, s, true),
-            Ev::SecIdle => self.second(env, s, false),
+            Ev::Sec => self.second(env, s, 5),
+            Ev::SecIdle => self.second(env, s, 0),
+            Ev::SecBurst => self.second(env, s, 40),
             Ev::Fault(l, m) => {
                 s.mode[l] = m;
                 s.w.rx_open[l] = m != Mode::SendFails;
@@ -561,6 +570,8 @@ fn models(tier: Tier) -> Vec<(String, Arc<M>, Vec<Plan>)> {
         out.push((m.name.clone(), m, vec![Plan::Dev { k: 2, depth: 16, default: Arc::new(move |_| sec) }]));
         let m = mk(2, 60000, false, 0);
         out.push((m.name.clone(), m, vec![Plan::Dev { k: 1, depth: 100, default: Arc::new(move |_| idle) }]));
+        let m = mk(2, 5000, false, 5);
+        out.push((m.name.clone(), m, vec![Plan::Dev { k: 3, depth: 16, default: Arc::new(move |_| 0) }]));
         // long outages, then a repair or a flap (level-4 alphabet: SecIdle is symbol 0, Sec symbol 1)
         let m = mk(2, 5000, false, 4);
         out.push((
@@ -600,6 +611,10 @@ fn models(tier: Tier) -> Vec<(String, Arc<M>, Vec<Plan>)> {
                     Plan::Dev { k: 3, depth: 45, default: Arc::new(move |_| 1) },
                 ],
             ));
+        }
+        for (timeout, classic) in [(5000u64, false), (1000, true)] {
+            let m = mk(2, timeout, classic, 5);
+            out.push((m.name.clone(), m, vec![Plan::Dev { k: 3, depth: 24, default: Arc::new(move |_| 0) }, Plan::Dev { k: 4, depth: 14, default: Arc::new(move |_| 0) }]));
         }
         // across the 120 s back-off cap: socket re-creation failing
         let m = mk(2, 5000, false, 3);
